@@ -389,6 +389,63 @@ def decode_cfg(vals):
         return None
 
 
+def cfg_to_module(vals, prop):
+    """Engine B counterexample -> a real (declaration, bundle) module for compile confirmation"""
+    from . import corpus as C
+    flags = [v[0] != 0 for v in vals[:17]]
+    modes = [v[0] for v in vals[17:21]]
+    gapless = vals[21][0] != 0
+    num = int.from_bytes(bytes(vals[22]), "little")
+    size = int.from_bytes(bytes(vals[23]), "little")
+    am = ["auto", "match", "table"]
+    im = ["auto", "range", "next_and_back", "table", "table_inline"]
+    feats = {}
+    for f, on in zip(B_FIELDS, flags):
+        if not on:
+            continue
+        md = {"as_str": am[modes[0]], "from_str": am[modes[1]], "FromStr": am[modes[2]], "iter": im[modes[3]]}.get(f)
+        feats[f] = {"mode": md} if md and md != "auto" else None
+    def i64(v):
+        return int.from_bytes(bytes(v), "little", signed=True)
+    lo, hi = (i64(vals[24]), i64(vals[25])) if len(vals) > 25 else (1, num)
+    missing = (hi - lo + 1) - num          # number of absent discriminants between MIN and MAX
+    n = max(1 if gapless else 2, min(num, 300))
+    if gapless:
+        values = list(range(lo, lo + n))
+    else:
+        missing = max(1, missing)
+        top = lo + n - 1 + missing
+        if top > C.I64_MAX:
+            lo -= top - C.I64_MAX
+            top = C.I64_MAX
+        values = list(range(lo, lo + n - 1)) + [top]
+    want = {1: "i8", 2: "i16", 4: "i32", 8: "i64", 16: "i128"}.get(size, "i32")
+    repr_ = want
+    if not all(C.rmin(want) <= v <= C.rmax(want) for v in values) or len(values) > 2 ** C.REPRS[want][0]:
+        repr_ = "i64" if size != 16 else "i128"
+    d = C.mk("cfg", repr_, values, "B", order="sorted", implicit="max")
+    m = E.Module(d, C.Bundle("cfg", feats, split=1), prop)
+    return m, (num != n or repr_ != want)
+
+
+def confirm_cfg_by_compile(rep, rdir, vals, must_compile):
+    """-> (confirmed, text).  The solver proposed a configuration; the REAL macro decides."""
+    try:
+        m, approx = cfg_to_module(vals, rep.prop)
+    except Exception as ex:
+        return None, "cannot build a declaration for the configuration: %s" % ex
+    d = rdir + "_cfg"
+    RP.write_replay_crate(d, m.name, m.header(), "kani::exhausted", [], repo=REPO)
+    cmd = ["cargo", "build", "--offline", "--lib", "--target-dir", RP.REPLAY_TARGET]
+    rc, out, dt = K.run(cmd, d, 900, log=os.path.join(d, "build.log"), limits=False)
+    built = rc == 0
+    txt = "real derive on %s %s: %s%s" % (m.decl.repr, m.bundle.describe(), "compiles" if built else "is rejected / does not compile",
+                                          " (number of variants capped / repr widened for the confirmation; the number of missing discriminants is kept)" if approx else "")
+    if must_compile:
+        return (not built), txt
+    return built, txt
+
+
 def replay_candidate(rep, crate_dir, cand, harness_timeout, stubbing, extra_lib, extra_files, deps=None):
     hid, m, h, r, entry, fails = cand
     prop = rep.prop
@@ -433,6 +490,13 @@ def replay_candidate(rep, crate_dir, cand, harness_timeout, stubbing, extra_lib,
             why.append(str(verdicts))
             continue
         if "reproduced" in verdicts.values():
+            if hid in ("hb::h_needs", "hb::h_resolve_illegal"):
+                # the oracle of these two harnesses is hand-written (template-reference table,
+                # legality rule): let the real macro confirm the proposed configuration
+                ok, txt = confirm_cfg_by_compile(rep, d, vals, must_compile=(hid == "hb::h_needs"))
+                entry["compile_confirmation"] = txt
+                if ok is False:
+                    return False, d, "the solver's configuration is handled correctly by the real macro (%s): the hand-written oracle is stale" % txt
             return True, d, "reproduced: %s" % verdicts
         # last resort: the solver's counterexample may rest on indeterminate (uninitialised)
         # memory, which a native run resolves to one arbitrary value; miri decides that
